@@ -4,7 +4,7 @@ package reorgdetector
 
 import "golang.org/x/sync/errgroup"
 
-// verifSubscriberOrder and verifGo are no-ops in normal builds (see verif_hooks_on.go).
+// verifSubscriberOrder and verifOneAtATime are no-ops in normal builds (see verif_hooks_on.go).
 func verifSubscriberOrder(ids []string) []string { return ids }
 
-func verifGo(g *errgroup.Group, f func() error) { g.Go(f) }
+func verifOneAtATime(*errgroup.Group) {}
